@@ -33,6 +33,11 @@ from .boot import REPO, VERIF_ROOT
 PY = sys.executable
 
 
+def _safe(text):
+    """Printable form: details may quote data with unpaired surrogates."""
+    return str(text).encode("utf-8", "backslashreplace").decode("utf-8")
+
+
 def load_check(cid):
     return importlib.import_module(f"checks.{cid.lower()}")
 
@@ -212,7 +217,7 @@ def main(cid, tier, seed, replay=None):
             seen.add(key)
             path = write_replay(cid, v)
             print(f"VIOLATION property={cid} replay={path}")
-            print(f"  {v.get('detail', '')[:500]}")
+            print(_safe(f"  {v.get('detail', '')[:500]}"))
             if len(seen) >= 8:
                 break
         return 1
